@@ -1,6 +1,7 @@
 package main
 
 import (
+	"strings"
 	"fmt"
 	"math"
 	"math/rand"
@@ -220,6 +221,16 @@ func checkC08(ctx *Ctx, rig *c08Rig, c *c08Case) {
 			v = float64(int64(e.Val))
 		}
 		if err != nil {
+			if rig.kind == "cmd" && c08TimeLimitError(err) {
+				// fan2go's own time limits for commands (2 s deadline, 500 ms for the output pipes) are wall-clock: on an
+				// overloaded machine a healthy command can run into them, and the read then is a failed read by design.
+				// Counted; many of them make the run inconclusive, none of them is a verdict.
+				ctx.Count("healthy_commands_that_ran_into_fan2gos_time_limits", 1)
+				if after != before {
+					ctx.Violation("failed-read-changed-average:"+class+":time-limit", fmt.Sprintf("poll %d of %s: %v; smoothed value %v -> %v", i, jsonStr(c), err, before, after), c)
+				}
+				return
+			}
 			ctx.Violation("good-read-reported-error:"+class, fmt.Sprintf("poll %d of %s: %v", i, jsonStr(c), err), c)
 			return
 		}
@@ -382,5 +393,18 @@ func init() {
 			checkC08(ctx, rigs["cmd"], c)
 			ctx.Count("timeout_polls", 1)
 		}
+		if n := ctx.Res.Counters["healthy_commands_that_ran_into_fan2gos_time_limits"]; n > 20 {
+			ctx.Inconclusive(fmt.Sprintf("%d healthy commands ran into fan2go's wall-clock limits for commands: the machine is too loaded for the cmd part of this check", n))
+		}
 	})
+}
+
+func c08TimeLimitError(err error) bool {
+	msg := err.Error()
+	for _, p := range []string{"WaitDelay expired", "deadline exceeded", "signal: killed", "timed out"} {
+		if strings.Contains(msg, p) {
+			return true
+		}
+	}
+	return false
 }
